@@ -434,6 +434,21 @@ class JetscapeLoader(BaseLoader):
         cut_events = 0
         with open(self.PATH_JETSCAPE_, "r") as jetscape_file:
             self._skip_lines(jetscape_file)
+            # From here on only the selected events matter: keep their rows,
+            # so that the bookkeeping below can address the events relative
+            # to the first one that is read.
+            first_label = 1
+            if kwargs and "events" in self.optional_arguments_.keys():
+                if isinstance(kwargs["events"], int):
+                    event_start = event_end = kwargs["events"]
+                else:
+                    event_start, event_end = kwargs["events"]
+                self.num_output_per_event_ = self.num_output_per_event_[
+                    event_start : event_end + 1
+                ]
+                self.num_events_ = int(event_end - event_start + 1)
+            if len(self.num_output_per_event_) > 0:
+                first_label = int(self.num_output_per_event_[0, 0])
 
             for i in range(0, num_read_lines):
                 line = jetscape_file.readline()
@@ -447,7 +462,7 @@ class JetscapeLoader(BaseLoader):
                         )[0]
                         if len(data) != 0 or old_data_len == 0:
                             self.num_output_per_event_[len(particle_list)] = (
-                                len(particle_list) + 1,
+                                len(particle_list) + first_label,
                                 len(data),
                             )
                         else:
@@ -505,7 +520,7 @@ class JetscapeLoader(BaseLoader):
                                 self.num_output_per_event_[
                                     len(particle_list)
                                 ] = (
-                                    len(particle_list) + 1,
+                                    len(particle_list) + first_label,
                                     len(data),
                                 )
                             else:
@@ -538,7 +553,6 @@ class JetscapeLoader(BaseLoader):
                     data.append(particle)
 
         self.num_events_ = self.num_events_ - cut_events
-        # Correct num_output_per_event and num_events
         if not kwargs or "events" not in self.optional_arguments_.keys():
             if len(particle_list) != self.num_events_:
                 raise IndexError(
@@ -546,16 +560,6 @@ class JetscapeLoader(BaseLoader):
                     + "number of events specified by the comments in the "
                     + "Jetscape file!"
                 )
-        elif isinstance(kwargs["events"], int):
-            update = self.num_output_per_event_[kwargs["events"]]
-            self.num_output_per_event_ = np.array(update)
-            self.num_events_ = int(1)
-        elif isinstance(kwargs["events"], tuple):
-            event_start = kwargs["events"][0]
-            event_end = kwargs["events"][1]
-            update = self.num_output_per_event_[event_start : event_end + 1]
-            self.num_output_per_event_ = update
-            self.num_events_ = int(event_end - event_start + 1)
 
         if particle_list == []:
             particle_list = [[]]
